@@ -650,10 +650,12 @@ def c12_pattern_file(path, part, r):
     grid = [(s << 31) | (e << 23) | m for e in range(256) for s in (0, 1) for m in (0, 1, 0x400000, 0x7fffff)]   # 2048 patterns
     L = c3dgen.Layout(r); L.lead_zeros = 0; L.zero_prologue = False; L.param_block = 2; L.order = "groups_first"; L.sparse_ids = False; L.extra_blocks = 0
     np_, nch, nsub = 4, 4, 2
-    per_frame = np_ * 4 + nch * nsub          # 24 floats
-    nfr = (len(grid) + per_frame - 1) // per_frame
-    it = iter(grid + [0] * per_frame)
-    frames = [([[next(it) for _ in range(4)] for _ in range(np_)], [[next(it) for _ in range(nch)] for _ in range(nsub)]) for _ in range(nfr)]
+    # every pattern of the grid in a POINT slot and in an ANALOG slot (two independent walks over the grid: a value that only
+    # the channel storage alters - a signalling NaN quieted - must not hide in a point position)
+    import itertools
+    nfr = (len(grid) + nch * nsub - 1) // (nch * nsub)      # 256 frames: the analog walk covers the grid once, the point walk twice
+    itp = itertools.cycle(grid); ita = itertools.cycle(grid)
+    frames = [([[next(itp) for _ in range(4)] for _ in range(np_)], [[next(ita) for _ in range(nch)] for _ in range(nsub)]) for _ in range(nfr)]
     ints = list(range(-32768, 32768))
     chunk = ints[part * 22000:(part + 1) * 22000]
     first = [1, 2, 0x7F, 0x80, 0xFF, 0x100, 0x7FFF, 0x8000, 0xFFFE - nfr][part % 9] if part < 9 else 1
